@@ -237,20 +237,30 @@ def impl_bst_run(a, strict=False):
         return [2]
 
 _STYLE_CACHE = {}
-def make_style(fields, minx):
+def make_style(fields, minx, legacy=False):
     """a style object holds no per-run state; building one costs three plugin look-ups, so they are cached"""
-    key = (tuple(fields), minx)
+    key = (tuple(fields), minx, legacy)
     if key not in _STYLE_CACHE:
-        _STYLE_CACHE[key] = _make_style(fields, minx)
+        _STYLE_CACHE[key] = _make_style(fields, minx, legacy)
     return _STYLE_CACHE[key]
 
-def _make_style(fields, minx):
+def _make_style(fields, minx, legacy):
     from pybtex.style.formatting.unsrt import Style as Unsrt
     from pybtex.style.template import field, optional, join, first_of
+    def dump():
+        return join(sep='|')[[first_of[optional[join['<', field(f, raw=True), '>']], 'MISSING'] for f in fields]]
     class FieldDump(Unsrt):
         def get_misc_template(self, e):
-            return join(sep='|')[[first_of[optional[join['<', field(f, raw=True), '>']], 'MISSING'] for f in fields]]
-    return FieldDump(min_crossrefs=minx)
+            return dump()
+    class LegacyDump(Unsrt):
+        """a style of the older kind: format_<type>(context) methods instead of get_<type>_template"""
+        def __getattribute__(self, name):
+            if name == 'get_misc_template':
+                raise AttributeError(name)
+            return Unsrt.__getattribute__(self, name)
+        def format_misc(self, context):
+            return dump().format_data(context)
+    return (LegacyDump if legacy else FieldDump)(min_crossrefs=minx)
 
 def impl_py_run(a, strict=False):
     """BaseStyle.format_bibliography -> format_entries -> format_entry -> template field()"""
@@ -260,7 +270,7 @@ def impl_py_run(a, strict=False):
     fields = [S(f) for f in a[3]]
     def run():
         cits = None if a[1] == NO_CITATIONS else [S(c) for c in a[1]]      # format_bibliography(bib_data): all entries
-        fb = make_style(fields, a[2]).format_bibliography(bd, cits)
+        fb = make_style(fields, a[2], legacy=len(a[0]) % 2 == 0).format_bibliography(bd, cits)
         obs = []
         for fe in fb:
             parts = str(fe.text).split('|') if fields else []
@@ -694,7 +704,7 @@ def gen(tier, rng):
                     yield ('exhaustive4', 5, [db, ['*'], 2, ['title']]); yield ('exhaustive4', 6, [db, ['*'], 2, ['title']])
     # ---- structured random: larger graphs (chains, cycles, trees, random), key/field case variation,
     #      aliased objects, repeated keys, a start entry that is not in the database
-    nrand = 1500 if quick else 20000
+    nrand = 1500 if quick else 8000
     for i in range(nrand):
         n = rng.choice([2, 3, 4, 5, 6, 8, 10, 12])
         db = rand_db(rng, n, alias=rng.random() < 0.15, dupkeys=rng.random() < 0.1)
